@@ -207,3 +207,145 @@ package json
 //@   props C16
 //@   nopanic
 //@   ensures result == jsonTokenStr(t)
+
+// ---- C10: "numeral -> (sign, digit string, fractional length) with exponent
+// folded in": the steps of the numeral scanner, one by one.  (Scan itself calls
+// the current state through a function-valued field and stays an assumed
+// contract, NewNumber; these contracts pin down what every state counts and
+// what the helpers build.) ----
+
+//@ func (*scanner).stateOnSearchStart(c)
+//@   props C10
+//@   requires s != nil && 0 <= s.intLen && s.intLen < 1000000000000000
+//@   nopanic
+//@   modifies s.negative, s.finished, s.stateFn, s.intLen
+//@   ensures result == (c == '-' || isDigit(c))
+//@   ensures c == '-' ==> s.negative && !s.finished && s.intLen == old(s.intLen)
+//@   ensures isDigit(c) ==> s.intLen == old(s.intLen) + 1 && s.negative == old(s.negative) && s.finished == old(s.finished)
+//@   ensures !result ==> s.intLen == old(s.intLen) && s.negative == old(s.negative)
+
+//@ func (*scanner).stateMinusFound(c)
+//@   props C10
+//@   requires s != nil && 0 <= s.intLen && s.intLen < 1000000000000000
+//@   nopanic
+//@   modifies s.stateFn, s.intLen
+//@   ensures result == isDigit(c) && s.intLen == old(s.intLen) + (isDigit(c) ? 1 : 0)
+
+// after a leading zero only a fraction may follow ("01" is not a number; nor, on this tree, "0e1")
+//@ func (*scanner).stateFirstZeroFound(c)
+//@   props C10
+//@   requires s != nil
+//@   nopanic
+//@   modifies s.finished, s.stateFn
+//@   ensures result == (c == '.') && (c == '.' ==> !s.finished) && (c != '.' ==> s.finished == old(s.finished))
+
+//@ func (*scanner).stateIntegerNumberFound(c)
+//@   props C10
+//@   requires s != nil && 0 <= s.intLen && s.intLen < 1000000000000000
+//@   nopanic
+//@   modifies s.finished, s.stateFn, s.intLen
+//@   ensures result == (isDigit(c) || c == '.' || c == 'e' || c == 'E')
+//@   ensures s.intLen == old(s.intLen) + (isDigit(c) ? 1 : 0)
+//@   ensures (c == '.' || c == 'e' || c == 'E') ==> !s.finished
+//@   ensures isDigit(c) || !result ==> s.finished == old(s.finished)
+
+//@ func (*scanner).statePointFound(c)
+//@   props C10
+//@   requires s != nil && 0 <= s.fraLen && s.fraLen < 1000000000000000
+//@   nopanic
+//@   modifies s.stateFn, s.fraLen
+//@   ensures result == isDigit(c) && s.fraLen == old(s.fraLen) + (isDigit(c) ? 1 : 0)
+
+//@ func (*scanner).stateFractionalNumberFound(c)
+//@   props C10
+//@   requires s != nil && 0 <= s.fraLen && s.fraLen < 1000000000000000
+//@   nopanic
+//@   modifies s.finished, s.stateFn, s.fraLen
+//@   ensures result == (isDigit(c) || c == 'e' || c == 'E')
+//@   ensures s.fraLen == old(s.fraLen) + (isDigit(c) ? 1 : 0)
+//@   ensures (c == 'e' || c == 'E') ==> !s.finished
+//@   ensures isDigit(c) || !result ==> s.finished == old(s.finished)
+
+// the exponent digits (with a '-' sign, never a '+') start at expBegin, recorded once
+//@ func (*scanner).stateExpFound(c)
+//@   props C10
+//@   requires s != nil
+//@   nopanic
+//@   modifies s.finished, s.stateFn, s.expBegin
+//@   ensures result == (c == '+' || c == '-' || isDigit(c))
+//@   ensures (c == '+' || c == '-') ==> !s.finished
+//@   ensures c == '+' || !result ==> s.expBegin == old(s.expBegin)
+//@   ensures (c == '-' || isDigit(c)) ==> s.expBegin == (old(s.expBegin) == 0 ? s.index : old(s.expBegin))
+//@   ensures isDigit(c) || !result ==> s.finished == old(s.finished)
+
+//@ func (*scanner).stateExpSignFound(c)
+//@   props C10
+//@   requires s != nil
+//@   nopanic
+//@   modifies s.stateFn, s.expBegin
+//@   ensures result == isDigit(c)
+//@   ensures isDigit(c) ==> s.expBegin == (old(s.expBegin) == 0 ? s.index : old(s.expBegin))
+//@   ensures !isDigit(c) ==> s.expBegin == old(s.expBegin)
+
+//@ func (*scanner).stateExpNumberFound(c)
+//@   props C10
+//@   nopanic
+//@   ensures result == isDigit(c)
+
+// exactly n zeros are appended
+//@ func appendZeros(to, n)
+//@   props C10
+//@   nopanic
+//@   ensures len(result) == len(to) + (n > 0 ? n : 0)
+//@   ensures forall k :: 0 <= k && k < len(to) ==> result[k] == old(to[k])
+//@   ensures forall k :: len(to) <= k && k < len(result) ==> result[k] == '0'
+//@   ensures result.$arr == to.$arr || result.$arr > old(alloc)
+//@   modifies to[*]
+//@   loop 0 invariant n <= n0 && len(to) == len(to0) + ((n0 > 0 ? n0 : 0) - (n > 0 ? n : 0)) && (to.$arr == to0.$arr || to.$arr > old(alloc))
+//@   loop 0 invariant (forall k :: 0 <= k && k < len(to0) ==> to[k] == old(to0[k])) && (forall k :: len(to0) <= k && k < len(to) ==> to[k] == '0')
+//@   loop 0 decreases n
+
+// the exponent is folded into the two lengths: intLen += e, fraLen -= e
+//@ func (*scanner).setExp(value)
+//@   props C10
+//@   requires s != nil && 0 <= s.expBegin && s.expBegin < len(value) && 0 <= s.intLen && s.intLen < 1000000000000000 && 0 <= s.fraLen && s.fraLen < 1000000000000000
+//@   nopanic
+//@   modifies s.intLen, s.fraLen
+//@   ensures s.expBegin == 0 ==> result == nil && s.intLen == old(s.intLen) && s.fraLen == old(s.fraLen)
+//@   ensures result == nil ==> mathint(s.intLen) + mathint(s.fraLen) == old(s.intLen) + old(s.fraLen) || s.intLen - old(s.intLen) > 4000000000000000000 || old(s.intLen) - s.intLen > 4000000000000000000
+//@   ensures result != nil ==> s.intLen == old(s.intLen) && s.fraLen == old(s.fraLen)
+
+// the digits of the mantissa (everything before the first byte that is not a
+// digit, '-' or '.') are appended in order; nothing else is
+//@ func appendDigits(from, to)
+//@   props C10
+//@   requires to.$arr != from.$arr
+//@   nopanic
+//@   modifies to[*]
+//@   ensures exists stop :: 0 <= stop && stop <= len(from) && (forall k :: 0 <= k && k < stop ==> isMant(from[k])) && (stop < len(from) ==> !isMant(from[stop])) && len(result) == len(to) + old(dcount(from, stop))
+//@   ensures forall k :: 0 <= k && k < len(to) ==> result[k] == old(to[k])
+//@   ensures forall k :: len(to) <= k && k < len(result) ==> isDigit(result[k])
+//@   ensures result.$arr == to.$arr || result.$arr > old(alloc)
+//@   loop 0 invariant rangeindex < len(from) && (forall k :: 0 <= k && k <= rangeindex ==> isMant(from[k])) && len(to) == len(to0) + old(dcount(from, rangeindex + 1)) && (forall k :: 0 <= k && k < len(from) ==> from[k] == old(from[k]))
+//@   loop 0 invariant len(to) >= len(to0) && (to.$arr == to0.$arr || to.$arr > old(alloc)) && (forall k :: 0 <= k && k < len(to0) ==> to[k] == old(to0[k])) && (forall k :: len(to0) <= k && k < len(to) ==> isDigit(to[k]))
+//@   loop 0 decreases len(from) - rangeindex
+
+// "exponent folded in": the digit string gets -intLen leading zeros when the
+// integer part is negative-length (1.2E-2 = .012), -fraLen trailing zeros when
+// the fraction is negative-length (1.2E+2 = 120, and the fraction becomes empty),
+// and is the bare digits otherwise
+//@ func (*scanner).getNatural(value)
+//@   props C10
+//@   uses lemma dcountA_nonneg
+//@   requires s != nil && 0 - 1000000000000000 < s.intLen && s.intLen < 1000000000000000 && 0 - 1000000000000000 < s.fraLen && s.fraLen < 1000000000000000
+//@   requires s.intLen < 0 ==> s.fraLen >= 0
+//@   requires !(s.intLen < 0) && !(s.fraLen < 0) ==> s.intLen + s.fraLen >= 0
+//@   nopanic
+//@   modifies s.fraLen
+//@   ensures fresh(result) || len(result) == 0 || result.$arr > old(alloc)
+//@   ensures forall k :: 0 <= k && k < len(result) ==> isDigit(result[k])
+//@   ensures old(s.intLen) < 0 ==> s.fraLen == old(s.fraLen) && len(result) >= 0 - old(s.intLen) && (forall k :: 0 <= k && k < 0 - old(s.intLen) ==> result[k] == '0')
+//@   ensures !(old(s.intLen) < 0) && old(s.fraLen) < 0 ==> s.fraLen == 0 && len(result) >= 0 - old(s.fraLen) && (forall k :: len(result) + old(s.fraLen) <= k && k < len(result) ==> result[k] == '0')
+//@   ensures !(old(s.intLen) < 0) && !(old(s.fraLen) < 0) ==> s.fraLen == old(s.fraLen)
+//@   ensures exists stop :: 0 <= stop && stop <= len(value) && (forall k :: 0 <= k && k < stop ==> isMant(value[k])) && (stop < len(value) ==> !isMant(value[stop]))
+//@           && len(result) == old(dcount(value, stop)) + (old(s.intLen) < 0 ? 0 - old(s.intLen) : (old(s.fraLen) < 0 ? 0 - old(s.fraLen) : 0))
